@@ -164,7 +164,7 @@ func (vc *VC) sortOf(t types.Type) Sort {
 		case "real":
 			return SReal
 		case "mathint":
-			return SInt
+			return BV(128) // "mathematical" integers of contracts: 128-bit signed, wide enough for sums and products of 64-bit values
 		}
 	}
 	if tp, ok := t.(*types.TypeParam); ok {
